@@ -101,8 +101,9 @@ impl ClientHello {
 
 impl Default for ClientHello {
     fn default() -> Self {
-        const CAPABILITIES: &[Capability] =
-            &[Capability::Base(Base::V1_0), Capability::Base(Base::V1_1)];
+        // Only end-of-message framing is implemented (RFC 6242, section 4.3), so `:base:1.1`,
+        // which mandates chunked framing once both peers advertise it, must not be offered.
+        const CAPABILITIES: &[Capability] = &[Capability::Base(Base::V1_0)];
         Self::new(CAPABILITIES)
     }
 }
